@@ -54,7 +54,7 @@ def w_callback(exe, rc):
                 part["viol"].append(("callback/rc=%s/%s" % (cname or rc, "accepts" if ret else "rejects"),
                                      {"rc": rc, "mode": MODES[m], "tld_check": t, "allow_tld": "0x%x" % mask},
                                      {"observed": [ret, err], "expected": list(exp)}))
-    part["distinct"] = 8 * 2048
+    part["distinct"] = 8 * 2048 if rc > 0 else 0      # non-trivial: the class bit actually decides
     part["samples"].append({"source": "callback", "rc": rc, "class": cname, "masks": 2048, "modes": 4, "tld_check": [0, 1]})
     return part
 
@@ -94,7 +94,7 @@ def w_real(exe, addr, kind, cls):
                                      + ("" if t else "/tld-off"),
                                      {"address": core.b2s(addr), "mode": MODES[m], "tld_check": t, "allow_tld": "0x%x" % mask},
                                      {"observed": [ret, err], "expected": list(exp)}))
-    part["distinct"] = 8 * 2048
+    part["distinct"] = 4 * 2048 if kind == "class" else 0   # non-trivial: tld on and a classified address
     part["samples"].append({"source": "real", "address": core.b2s(addr), "kind": kind, "class": cls})
     return part
 
@@ -154,8 +154,8 @@ def main(tier, seed):
     return rep.finish(ev, rep.distinct_count,
                       "callback result codes {0, 9 classes, every negative code} x 2^11 masks x 4 modes x tld off/on (complete); %d "
                       "real addresses (every class present in the table%s, reserved, unlisted, non-FQDN, literals, syntax-invalid) x "
-                      "2^11 masks x 4 modes x tld off/on; eav_init on 6 poison patterns; distinct = (code|address, mode, tld, mask) "
-                      "tuples" % (len(real), "" if tier == "quick" else ", all rows"),
+                      "2^11 masks x 4 modes x tld off/on; eav_init on 6 poison patterns; distinct_nontrivial = (code|address, mode, tld, mask) "
+                      "tuples in which the class bit decides (positive result code / classified address with tld on)" % (len(real), "" if tier == "quick" else ", all rows"),
                       {"exhaustive": True, "result_codes": codes, "builds": cx.builds_info()})
 
 
